@@ -43,6 +43,26 @@ def gen_plan(rng, i: int, tier: str) -> dict:
             "dc": {"omit_l2_at_31": rng.random() < 0.5, "domain": NAMES[i % len(NAMES)], "forest": NAMES[(i // len(NAMES)) % len(NAMES)],
                    "pad_mode": rng.choice(("min16", "min4"))},
             "delivery": None, "ops": []}
+    if i % 4 == 3:
+        # field values 0 and 2^32-1 (and empty / odd-length byte fields) in the envelope that crosses the wire
+        M = 0xFFFFFFFF
+        ov = {}
+        for k, vals in (("version", (0, M, 2)), ("l0", (0, M, 0x80000000)), ("l1", (0, M, 0x80000000, 31)), ("l2", (0, M, 0x7FFFFFFF, 31)),
+                        ("private_key_length", (0, M)), ("public_key_length", (0, M)), ("flags", (0, 2, M - 1, 4))):
+            if rng.random() < 0.45:
+                ov[k] = rng.choice(vals)
+        for k in ("l1_key", "l2_key", "secret_params", "kdf_params"):
+            if rng.random() < 0.25:
+                ov[k] = bytes(rng.randrange(256) for _ in range(rng.choice((0, 1, 3, 63, 65))))
+        plan["dc"]["byz"] = {"envelope_override": ov}
+        plan["override"] = True
+        # only the codecs are under study here: the operations are unprotects of nonce-mode blobs by a member, so that the odd
+        # envelope is decoded (and then rejected by key derivation) without the library acting on absurd key lengths
+        for _ in range(rng.randint(1, 2)):
+            plan["ops"].append({"op": "unprotect", "fl": rng.choice(("sync", "async")), "net": "online", "cache": "fresh",
+                                "blob": {"rk": 0, "sid": sid_m, "pos": [cur[0], rng.randrange(32), rng.randrange(32)] if rng.random() < 0.5 else list(cur),
+                                         "mode": "nonce", "data": 5, "domain": "q.test", "forest": "q.test"}})
+        return plan
     for _ in range(rng.randint(1, 3)):
         r = rng.random()
         if r < 0.5:
@@ -148,12 +168,18 @@ def judge(plan, tr_ref: P.Trace, tr_lib: P.Trace):
             r = wiremon.check_getkey_response(rpce.ndr64_getkey_response(ea, 0), "ref")
             if r:
                 return V("getkey-reply", r[0], r[1]), probes
-            r = _struct_checks(a["envelope_fields"])
+            r = None if plan.get("override") else _struct_checks(a["envelope_fields"])
             if r:
                 return V("structures", r[0], r[1]), probes
+            if plan.get("override"):
+                probes["envelope_boundary_values"] = 1
             probes["reply_" + a["kind"]] = 1
     # (3)/(4) results and key identifiers
     for ot_r, ot_l in zip(tr_ref.ops, tr_lib.ops):
+        if plan.get("override"):
+            if ot_r.op["op"] in ("protect", "unprotect") and (ot_r.outcome.kind != ot_l.outcome.kind or type(ot_r.outcome.exc) is not type(ot_l.outcome.exc)):
+                return V("three-party", "outcome", f"op {ot_r.idx}: {ot_r.outcome.brief()} against RefDC, {ot_l.outcome.brief()} against LibDC"), probes
+            continue
         if ot_r.op["op"] not in ("protect", "unprotect"):
             continue
         if ot_r.outcome.kind != ot_l.outcome.kind:
@@ -207,7 +233,7 @@ class C11(common.Check):
     assumptions = ["structure values that no party can send in this protocol (e.g. an envelope with L1 = 2^32-1) are outside the technique and not claimed",
                    "NDR referent ids are free and compared through the decoder"]
     required_fired = tuple("sd_len_mod8_%d" % i for i in (0, 4)) + ("root_key_ptr_null", "root_key_ptr_set", "reply_seed", "reply_public") + \
-        tuple("env_len_mod8_%d" % i for i in range(8))
+        tuple("env_len_mod8_%d" % i for i in range(8)) + ("envelope_boundary_values",)
 
     def cases(self, tier, seed):
         rng = prng.stream(seed, "C11")
